@@ -127,9 +127,8 @@ def decBoxes (ctx : SencCtx) : Nat → Bytes → Option (List Box)
       let payload := afterHdr.take (h.size - h.hdrSize)
       let rest := afterHdr.drop (h.size - h.hdrSize)
       let box : Option Box :=
-        match kindOf h.typ with
-        | .container => (decBoxes ctx fuel payload).map (Box.node h.typ h.large)
-        | k => (decPayload ctx k payload).map (Box.leaf h.typ h.large)
+        if kindOf h.typ = .container then (decBoxes ctx fuel payload).map (Box.node h.typ h.large)
+        else (decPayload ctx (kindOf h.typ) payload).map (Box.leaf h.typ h.large)
       match box, decBoxes ctx fuel rest with
       | some b, some tl => some (b :: tl)
       | _, _ => none
